@@ -55,15 +55,20 @@ RULE = (
     "Max-Age that is not [-]digits, Path ending in '//', Expires dates outside the three HTTP formats). In 12% of histories some responses also carry, before / between / "
     "after their Set-Cookie fields, one or two fields that are ignored as a whole (name-value pair without '=' or "
     "without a name, empty field, cookie-name that is an attribute name - bare Secure/HttpOnly, domain=, path=, "
-    "max-age=, expires=, ... - each followed by 0-2 ordinary attributes): they must change nothing. 2% end "
+    "max-age=, expires=, ... - each followed by 0-2 ordinary attributes): they must change nothing. In 8% of histories some Set-Cookie fields "
+    "get an Expires date whose year sits at an edge of the RFC 6265 5.1.1 year rule (two-digit 68/69/70/71/99/00/01, "
+    "three-digit, four-digit 1600/1601/1969/1970/2000/2038/2068..2070/2100, years around the virtual 'now') in the "
+    "IMF / RFC 850 / asctime / Netscape spellings or as a quoted string of the four tokens in any order the algorithm "
+    "reads, separated by ' ', '-', '/' or ','; one in five of those histories also uses a year standing before the day of "
+    "month, or a day the month does not have (off-lattice spellings like the four above). 2% end "
     "with real ClientSession requests through the simulated network (the first response sets one cookie, in 40% of "
     "them next to an ignored field). 23 directed histories run first. "
     "Non-trivial: the reference both attached a cookie to some query and withheld a live "
     "cookie from some query (scoping mattered). Distinct = sequence of operation classes (kind, host-only/domain, "
     "expiry class, acceptance)."
 )
-ENUM_RULE = ("23 hand-written minimal histories, one per scoping rule (host-only, domain, lookalike host, cross-site set, "
-             "Secure, treat_as_secure_origin, path-match, IP hosts, Expires/Max-Age, delete, clear_domain, shared cookies, "
+ENUM_RULE = ("24 hand-written minimal histories, one per scoping rule (host-only, domain, lookalike host, cross-site set, "
+             "Secure, treat_as_secure_origin, path-match, IP hosts, Expires/Max-Age, the year rule of Expires dates, delete, clear_domain, shared cookies, "
              "save/load), one per finding of round 1 and two responses mixing Set-Cookie fields that are ignored as a "
              "whole with fields that set cookies, each judged on the full 9x5x2 query lattice")
 ENUM_IS_EXHAUSTIVE = False
@@ -155,6 +160,129 @@ _STD_DATE = re.compile(
     r'|"\d\d [A-Z][a-z]{2} \d{4} \d\d:\d\d:\d\d GMT")\Z')
 
 
+# Further spellings of a date that RFC 6265 5.1.1 reads and that are ordinary on the wire (so they are
+# no "extras"): the Netscape form with an abbreviated week day and a two- or four-digit year, and a quoted
+# string holding the four tokens (time, day of month, month, year - the day before the year, as 5.1.1 gives a
+# one- or two-digit token to the day of month first) in any order, separated by spaces, '-', '/' or ','.
+_STD_DATE2 = re.compile(
+    r"(?:[A-Z][a-z]{2}, \d\d[ -][A-Z][a-z]{2}[ -]\d{2,4} \d\d:\d\d:\d\d GMT"
+    r'|"[A-Za-z\d:,/ -]+")\Z')
+
+# years at the edges of RFC 6265 5.1.1: two-digit years 70..99 are 19xx and 0..69 are 20xx (step 3/4 of the
+# year rule), a year below 1601 fails the parse (the attribute is ignored); plus years around "now" of the
+# virtual clock (2023) and the end of 32-bit time
+YEARS_2 = ["68", "69", "69", "70", "70", "71", "99", "00", "01", "22", "23", "24", "38", "50"]
+YEARS_3 = ["069", "070", "100", "999"]
+YEARS_4 = ["1600", "1601", "1601", "1900", "1969", "1970", "1999", "2000", "2022", "2024", "2038", "2068", "2069",
+           "2070", "2100", "0069", "0070"]
+_ORDERS = [o for o in ("tdmy", "tdym", "tmdy", "dtmy", "dtym", "dmty", "dmyt", "dytm", "dymt", "mtdy", "mdty", "mdyt")]
+
+
+def full_year(tok: str) -> int:
+    """The year a year-token means (RFC 6265 5.1.1): used for the week day, which no parser reads."""
+    y = int(tok)
+    return y + 1900 if 70 <= y <= 99 else y + 2000 if 0 <= y <= 69 else y
+
+
+def spell_date(ytok: str, month: int, day: int, h: int, mi: int, sec: int, shape: int, order: str = "dmyt",
+               sep: str = " ", short_time: bool = False) -> str:
+    """A date with the year written as `ytok`, in one of the shapes both RFC 6265 5.1.1 and an HTTP date
+    tokenizer read.  shape 0 IMF-fixdate, 1 RFC 850 (full week day), 2 asctime, 3 Netscape (abbreviated week
+    day, dashes), 4 the same with spaces, 5 quoted tokens in `order` joined by `sep`."""
+    import datetime
+
+    fy = full_year(ytok)
+    try:
+        wd = datetime.date(fy, month, day).weekday() if fy >= 1 else 0
+    except ValueError:
+        wd = 0
+    mon = _MON[month - 1]
+    hms = f"{h:02d}:{mi:02d}:{sec:02d}"
+    if shape == 0:
+        return f"{_WD[wd]}, {day:02d} {mon} {ytok} {hms} GMT"
+    if shape == 1:
+        return f"{_WDL[wd]}, {day:02d}-{mon}-{ytok} {hms} GMT"
+    if shape == 2:
+        return f"{_WD[wd]} {mon} {day:2d} {hms} {ytok}"
+    if shape == 3:
+        return f"{_WD[wd]}, {day:02d}-{mon}-{ytok} {hms} GMT"
+    if shape == 4:
+        return f"{_WD[wd]}, {day:02d} {mon} {ytok} {hms} GMT"
+    tok = {"t": f"{h}:{mi}:{sec}" if short_time else hms, "d": f"{day:02d}", "m": mon, "y": ytok}
+    return '"' + sep.join(tok[c] for c in order) + '"'
+
+
+_ORDERS_YEAR_FIRST = ["ydmt", "ymdt", "ytdm", "tymd", "mydt", "ytmd"]
+_NO_SUCH_DATE = [("2000", 2, 30), ("2024", 2, 31), ("2023", 2, 29), ("1900", 2, 29), ("2100", 2, 29), ("2069", 4, 31),
+                 ("1999", 6, 31), ("2038", 9, 31), ("2022", 11, 31), ("99", 2, 29), ("69", 2, 29), ("01", 2, 30)]
+
+
+def date_class(v: str):
+    """Two spellings of an Expires date that RFC 6265 5.1.1 decides in a way of its own: a year of three or four
+    digits standing before the day of month (such a token is no day-of-month: that is 1*2DIGIT followed by a
+    non-digit or the end), and a day the month does not have ("the date does not exist": the parse fails)."""
+    seen_time = False
+    for tok in R._TOKEN_RE.findall(v):
+        if not seen_time and R._TIME_RE.match(tok):
+            seen_time = True
+            continue
+        if R._DAY_RE.match(tok):
+            break
+        if re.match(r"\d{3,4}(?:\D|\Z)", tok):
+            return "expires_year_before_day_of_month"
+    m = re.search(r"(?<![\d:])(29|30|31)(?![\d:])", v)
+    if m and R.parse_cookie_date(v) is None and R.parse_cookie_date(v[:m.start()] + "01" + v[m.end():]) is not None:
+        return "expires_no_such_date"
+    return None
+
+
+def _gen_spelt_expires(rng, odd=None):
+    if odd == "year_first":
+        ytok = rng.choice(YEARS_4 + YEARS_3)
+        return spell_date(ytok, rng.randint(1, 12), rng.randint(1, 28), rng.randint(0, 23), rng.randint(0, 59),
+                          rng.randint(0, 59), 5, rng.choice(_ORDERS_YEAR_FIRST), rng.choice([" ", " ", "-", "/", ", "]))
+    if odd == "no_such_date":
+        ytok, mo, d = rng.choice(_NO_SUCH_DATE)
+        shape = rng.choice([1, 3, 4, 5] if len(ytok) == 2 else [0, 2, 3, 4, 5])
+        return spell_date(ytok, mo, d, rng.randint(0, 23), rng.randint(0, 59), rng.randint(0, 59), shape,
+                          rng.choice(_ORDERS), rng.choice([" ", "-", "/"]))
+    r = rng.random()
+    if r < 0.5:
+        ytok = rng.choice(YEARS_2)
+    elif r < 0.9:
+        ytok = rng.choice(YEARS_4)
+    else:
+        ytok = rng.choice(YEARS_3)
+    if len(ytok) == 2:
+        shape = rng.choice([1, 1, 3, 3, 4, 5])
+    elif len(ytok) == 4:
+        shape = rng.choice([0, 0, 2, 3, 4, 5])
+    else:
+        shape = rng.choice([3, 4, 5])
+    return spell_date(ytok, rng.randint(1, 12), rng.randint(1, 28), rng.randint(0, 23), rng.randint(0, 59),
+                      rng.randint(0, 59), shape, rng.choice(_ORDERS), rng.choice([" ", " ", "-", "/", ", "]),
+                      rng.random() < 0.2)
+
+
+def _add_date_spellings(rng, scn):
+    """Post-pass of gen() (drawn after every other draw): some Set-Cookie fields of the history get an Expires
+    date whose year sits at an edge of the RFC 6265 5.1.1 year rule, in one of the spellings of spell_date();
+    most of them lose a Max-Age (which would take precedence)."""
+    specs = [spec for op in scn["ops"] if op["k"] == "set" for spec in op["c"] if not spec.get("ign")]
+    if not specs:
+        return
+    chosen = [spec for spec in specs if rng.random() < 0.5] or [rng.choice(specs)]
+    # one history in five of these also uses one kind of date that 5.1.1 decides in a way of its own (date_class)
+    odd = rng.choice(["year_first", "no_such_date"]) if rng.random() < 0.2 else None
+    for spec in chosen:
+        drop = ("expires", "max-age") if rng.random() < 0.8 else ("expires",)
+        lower = bool(spec["a"]) and all(a[0] == a[0].lower() for a in spec["a"])
+        attrs = [a for a in spec["a"] if a[0].lower() not in drop]
+        attrs.insert(rng.randint(0, len(attrs)), ["expires" if lower else "Expires", _gen_spelt_expires(rng, odd if odd and rng.random() < 0.6 else None)])
+        spec["a"] = attrs
+        spec["ds"] = 1
+
+
 def _attrs_of(hdr: str, name: str):
     out = []
     for part in hdr.split(";")[1:]:
@@ -169,8 +297,10 @@ def syntax_class(hdr: str):
     if any(R._delta_seconds(m) is None for m in _attrs_of(hdr, "max-age")):
         return "max_age_not_rfc_syntax"
     exps = _attrs_of(hdr, "expires")
-    if exps and not _STD_DATE.match(exps[-1]):
+    if exps and not _STD_DATE.match(exps[-1]) and not _STD_DATE2.match(exps[-1]):
         return "expires_nonstandard_date_format"
+    if exps and date_class(exps[-1]):
+        return date_class(exps[-1])
     paths = _attrs_of(hdr, "path")
     if paths and paths[-1].endswith("//"):
         return "path_multiple_trailing_slashes"
@@ -470,6 +600,8 @@ def gen(rng, tier, index):
         # the real response carries a second Set-Cookie field, one that is ignored as a whole
         j = _gen_ignored_field(rng, scn["wire"][0][0], names, t, "ignw")
         scn["wire_ignored"] = {"spec": j, "first": rng.random() < 0.2}
+    if rng.random() < 0.08:
+        _add_date_spellings(rng, scn)
     return scn
 
 
@@ -558,6 +690,21 @@ def enumerate_cases(tier, seed):
                {"k": "adv", "dt": 10}])
 
 
+    # Expires dates whose year sits at an edge of the RFC 6265 5.1.1 year rule (two-digit 70..99 = 19xx, 0..69 =
+    # 20xx; below 1601 the date - hence the attribute - is void), each replacing a live cookie of its name
+    yield scn([_set(0, "/", _ck("a", "v1"), _ck("b", "v2"), _ck("sid", "v3")),
+               _set(0, "/", _ck("a", "v4", ["Expires", spell_date("69", 1, 1, 0, 0, 0, 3)]),
+                    _ck("b", "v5", ["Expires", spell_date("70", 1, 1, 0, 0, 0, 1)]),
+                    _ck("sid", "v6", ["Expires", spell_date("68", 12, 31, 23, 59, 59, 4)])),
+               _set(1, "/", _ck("a", "v7", ["Expires", spell_date("99", 12, 31, 23, 59, 59, 1)]),
+                    _ck("b", "v8", ["Expires", spell_date("00", 1, 1, 0, 0, 0, 5, "mdyt", "/")]),
+                    _ck("sid", "v9", ["Expires", spell_date("1600", 6, 15, 12, 0, 0, 0)])),
+               _set(3, "/", _ck("a", "v10", ["Expires", spell_date("1601", 1, 1, 0, 0, 0, 2)]),
+                    _ck("b", "v11", ["Expires", spell_date("2069", 1, 1, 0, 0, 0, 0)]),
+                    _ck("sid", "v12", ["Expires", spell_date("069", 7, 4, 1, 2, 3, 5, "tdmy", "-", True)])),
+               {"k": "reload"}, {"k": "jump", "dt": 86400}])
+
+
 def shrink(scn):
     ops = scn["ops"]
     n = len(ops)
@@ -574,6 +721,13 @@ def shrink(scn):
         c = dict(scn)
         c["ops"] = [dict(op, c=[spec for spec in op["c"] if not spec.get("ign")]) if op.get("c") else op for op in ops]
         c["ops"] = [op for op in c["ops"] if op.get("c") or op["k"] not in ("set", "api")]
+        yield c
+    if any(spec.get("ds") for op in ops for spec in op.get("c", ())):
+        # every specially spelt Expires date at once
+        c = dict(scn)
+        c["ops"] = [dict(op, c=[{k_: ([a for a in v_ if a[0].lower() != "expires"] if k_ == "a" else v_)
+                                 for k_, v_ in spec.items() if k_ != "ds"} if spec.get("ds") else spec
+                                for spec in op["c"]]) if op.get("c") else op for op in ops]
         yield c
     size = n // 2
     while size >= 1:
@@ -951,6 +1105,15 @@ def run(scn, ch, log=False):
                     cls.append("ign")
                     continue
                 cookie_before = True
+                if spec.get("ds"):
+                    probe("spelt_expires")
+                    e_ = _attrs_of(hdr, "expires")
+                    if e_ and not _attrs_of(hdr, "max-age"):
+                        ts_ = R.parse_cookie_date(e_[-1])
+                        probe("spelt_expires_decides_" + ("void" if ts_ is None else "past" if ts_ <= t_now else "future"))
+                        if re.search(r"(?<![\d:])\d\d(?![\d:])[^\d]*(?<![\d:])\d\d(?![\d:])", e_[-1]):
+                            probe("spelt_expires_two_digit_year")
+                cookie_before = True
                 if c is not None:
                     # a value is carried by several tags only when a cookie is issued again (gen), i.e. under one
                     # (domain, path, name); a history where they differ (the shrinker can make one) is ambiguous
@@ -1239,6 +1402,48 @@ def oracle_selftest():
                 raise AssertionError(f"fmt_date({ts},{f}) = {s!r} parses to {got}")
             if (f <= 5) != bool(_STD_DATE.match(s)):
                 raise AssertionError(f"date shape classifier wrong for {s!r}")
+    # hand-checked: the year rule of RFC 6265 5.1.1 in the spellings of spell_date()
+    #   2069-01-01 = 99 years and 25 leap days after the epoch; 2068-01-01 = 98 years and 24 leap days;
+    #   1601-01-01 is the Windows FILETIME epoch, 11644473600 s before 1970
+    for s, want in (
+        ("Tue, 01-Jan-69 00:00:00 GMT", (99 * 365 + 25) * 86400),
+        ("Tuesday, 01-Jan-69 00:00:00 GMT", 3124224000),
+        ("Sun, 01 Jan 68 00:00:00 GMT", (98 * 365 + 24) * 86400),
+        ("Thursday, 01-Jan-70 00:00:00 GMT", 0),
+        ("Fri, 31-Dec-99 23:59:59 GMT", 946684799),
+        ('"Jan/01/00/00:00:00"', 946684800),
+        ('"0:0:1, 01, Jan, 070"', 1),
+        ('"1:2:3-04-Jul-069"', 3124224000 + (31 + 28 + 31 + 30 + 31 + 30 + 3) * 86400 + 3723),
+        ("Mon Jan  1 00:00:00 1601", -11644473600),
+        ("Thu, 15 Jun 1600 12:00:00 GMT", None),
+        ("Thu, 01 Jan 0070 00:00:00 GMT", 0),  # the rule reads the value of the year, not its digits
+        ("Tue, 01 Jan 2069 00:00:00 GMT", 3124224000),
+    ):
+        got = R.parse_cookie_date(s)
+        if got != want:
+            raise AssertionError(f"parse_cookie_date({s!r}) = {got}, hand-checked {want}")
+        if not (_STD_DATE.match(s) or _STD_DATE2.match(s)):
+            raise AssertionError(f"date shape classifier wrong for {s!r}")
+    for s, ts, cls in (
+        ('"2069 Jan 05 00:00:00"', 3124224000 + 4 * 86400, "expires_year_before_day_of_month"),
+        ('"00:00:00 2069-Jan-05"', 3124224000 + 4 * 86400, "expires_year_before_day_of_month"),
+        ('"Jan 069 05 00:00:00"', 3124224000 + 4 * 86400, "expires_year_before_day_of_month"),
+        ('"05 2069 Jan 00:00:00"', 3124224000 + 4 * 86400, None),
+        ("Wed, 30 Feb 2000 00:00:00 GMT", None, "expires_no_such_date"),
+        ("Mon Feb 29 00:00:00 1900", None, "expires_no_such_date"),
+        ("Tuesday, 29-Feb-00 00:00:00 GMT", 946684800 + (31 + 28) * 86400, None),
+        ("Thu, 15 Jun 1600 12:00:00 GMT", None, None),
+    ):
+        if R.parse_cookie_date(s) != ts or date_class(s) != cls:
+            raise AssertionError(f"{s!r}: parse_cookie_date {R.parse_cookie_date(s)} (hand-checked {ts}), "
+                                 f"date_class {date_class(s)} (hand-checked {cls})")
+    for args, want in (
+        (("69", 1, 1, 0, 0, 0, 3), "Tue, 01-Jan-69 00:00:00 GMT"), (("70", 1, 1, 0, 0, 0, 1), "Thursday, 01-Jan-70 00:00:00 GMT"),
+        (("1601", 1, 1, 0, 0, 0, 2), "Mon Jan  1 00:00:00 1601"), (("00", 1, 1, 0, 0, 0, 5, "mdyt", "/"), '"Jan/01/00/00:00:00"'),
+        (("069", 7, 4, 1, 2, 3, 5, "tdmy", "-", True), '"1:2:3-04-Jul-069"'),
+    ):
+        if spell_date(*args) != want:
+            raise AssertionError(f"spell_date{args} = {spell_date(*args)!r}")
     if fmt_date(0, 0) != "Thu, 01 Jan 1970 00:00:00 GMT" or fmt_date(1700000000, 2) != "Tue Nov 14 22:13:20 2023":
         raise AssertionError("fmt_date")
 
